@@ -1450,6 +1450,11 @@ class ContractObs(Observer):
     def on_store(self, it, target, key, val, stmt):
         if it.depth:
             return
+        if isinstance(target, ast.Name) and any(
+                o == target.id for o, _ in getattr(it, "_field_stores", {})):
+            # the name is re-bound to another object: the fields of the old
+            # one are final now (it has been appended / returned)
+            self._check_fields(it, it.env, only_obj=target.id)
         if isinstance(target, ast.Attribute) and target.attr in SRC_FIELDS:
             base = it.eval(target.value, it.env)
             c = base.cls[6:] if base.cls and base.cls.startswith("class:") \
@@ -1473,17 +1478,24 @@ class ContractObs(Observer):
 
     def finish(self, it):
         """field contracts are checked on the value live at function exit"""
-        fe = getattr(it, "final_env", {}) or {}
-        for (obj, attr), (stmt, val, want) in getattr(
-                it, "_field_stores", {}).items():
+        self._check_fields(it, getattr(it, "final_env", {}) or {})
+
+    def _check_fields(self, it, fe, only_obj=None):
+        """check (and forget) the recorded field stores of `only_obj` (all
+        objects if None) against the values live in environment fe"""
+        stores = getattr(it, "_field_stores", {})
+        for (obj, attr) in list(stores):
+            if only_obj is not None and obj != only_obj:
+                continue
+            stmt, val, want = stores.pop((obj, attr))
+            allv = it._field_all.pop((obj, attr), [])
             live = fe.get("%s.%s" % (obj, attr), val)
             ax = it.fi.qualname not in AXIS_RELABEL
             ms = facet_mismatch(want, live, axes=ax)
             if not ms:
                 continue
             # blame the store(s) whose own value contradicts the contract
-            culprits = [(s2, v2) for s2, v2 in
-                        it._field_all.get((obj, attr), [])
+            culprits = [(s2, v2) for s2, v2 in allv
                         if facet_mismatch(want, v2, axes=ax)] or \
                 [(stmt, live)]
             for s2, v2 in culprits:
